@@ -104,6 +104,41 @@ func jobs() []job {
 		{name: "obipairing:fast-absolute", bin: "obipairing", setup: pairs, args: pairArgs("--fast-absolute", "-D", "3")},
 		{name: "obimultiplex:default", bin: "obimultiplex", setup: mux, args: muxArgs()},
 		{name: "obimultiplex:keep-errors", bin: "obimultiplex", setup: mux, args: muxArgs("--keep-errors", "-e", "1")},
+		// the majority LCA (--lca-error > 0) of taxid distributions with tied weights
+		{name: "obiannotate:lca-ties", bin: "obiannotate", setup: func(c *core.Ctx, dir string, n int) {
+			parent := map[int]int{1: 1, 10: 1, 11: 10, 12: 11, 13: 12, 14: 12, 15: 10, 16: 15, 20: 1, 21: 20, 22: 21, 23: 22}
+			rank := map[int]string{1: "no rank", 10: "kingdom", 11: "family", 12: "genus", 13: "species", 14: "species", 15: "family", 16: "species", 20: "kingdom", 21: "family", 22: "genus", 23: "species"}
+			var nodes, names strings.Builder
+			for _, id := range []int{1, 10, 11, 12, 13, 14, 15, 16, 20, 21, 22, 23} {
+				fmt.Fprintf(&nodes, "%d\t|\t%d\t|\t%s\t|\t\t|\t0\t|\t0\t|\t1\t|\t0\t|\t0\t|\t0\t|\t0\t|\t0\t|\t\t|\n", id, parent[id], rank[id])
+				fmt.Fprintf(&names, "%d\t|\ttaxon %d\t|\t\t|\tscientific name\t|\n", id, id)
+			}
+			os.MkdirAll(filepath.Join(dir, "taxdump"), 0o755)
+			w(dir, "taxdump/nodes.dmp", []byte(nodes.String()))
+			w(dir, "taxdump/names.dmp", []byte(names.String()))
+			w(dir, "taxdump/merged.dmp", nil)
+			leaves := []int{13, 14, 16, 23, 12, 21}
+			var sb strings.Builder
+			for i := 0; i < n; i++ {
+				k := 2 + c.Rng.Intn(3)
+				perm := c.Rng.Perm(len(leaves))[:k]
+				wgt := 1 + c.Rng.Intn(3)
+				var parts []string
+				tot := 0
+				for j, p := range perm {
+					x := wgt // equal weights: ties at every level
+					if j == 0 && c.Rng.Intn(3) == 0 {
+						x += c.Rng.Intn(2)
+					}
+					parts = append(parts, fmt.Sprintf("\"%d\":%d", leaves[p], x))
+					tot += x
+				}
+				fmt.Fprintf(&sb, ">seq%05d {\"count\":%d,\"merged_taxid\":{%s}}\n%s\n", i, tot, strings.Join(parts, ","), gen.DNA(c.Rng, 20+c.Rng.Intn(60)))
+			}
+			w(dir, "lca.fasta", []byte(sb.String()))
+		}, args: func(d string) []string {
+			return []string{"-t", filepath.Join(d, "taxdump"), "--add-lca-in", "lca", "--lca-error", "0.7", filepath.Join(d, "lca.fasta")}
+		}},
 		{name: "obimultiplex:shared-primer", bin: "obimultiplex", args: muxArgs("--keep-errors"), setup: func(c *core.Ctx, dir string, n int) {
 			m := gen.MultiplexSharedPrimer(c.Rng, n)
 			w(dir, "sheet.txt", m.Sheet)
